@@ -28,3 +28,4 @@ def rules(ctx):
     S.relocation_content_rules(ctx)
     S.oldest_search_rules(ctx)
     S.round4_residue_rules(ctx)
+    S.round5_rules(ctx)
